@@ -14,6 +14,20 @@ RULE = ("tame sessions (stack operations from input(), 5..30 typed lines incl. e
 LINES = ["r", "c", "q", "x", "", "1", " ", "  a b ", "é", "ünï", "c", "c", "12", "q", "\t"]
 
 
+def gen_c06_dialog(rnd, sid):
+    """a screen is waiting for input; a signal handler shows a modal dialog that bypasses the concurrency check; the user answers the dialog, then the screen"""
+    nscr = rnd.randint(2, 3)
+    screens = []
+    for i in range(nscr):
+        sc = {"input": [{"ret": rnd.choice(["PROCESSED", "REDRAW", "CLOSE", "CLOSE", "DISCARDED"])} for _ in range(6)]}
+        screens.append(dict(id=i, name="S%d" % i, title=None, text="t%d" % i, height=30, input_required=True, no_separator=False,
+                            skip_check=(i > 0 and rnd.random() < 0.8), scripts=sc))
+    hs = [dict(cls="U0", hid=0, data=None, scripts=[[[rnd.choice(["push_modal", "push_modal", "push"]), rnd.randrange(1, nscr), rnd.choice([None, 1])]] for _ in range(3)])]
+    init = [["schedule", 0, rnd.choice([None, 2])]] + [["enq", "U0", rnd.choice([0, 0, 1]), None, sid.next()] for _ in range(rnd.randint(1, 2))]
+    return dict(op="machine", mode="dialog", width=80, screens=screens, handlers=hs, init=init, stdin=[rnd.choice(LINES) for _ in range(rnd.randint(2, 8))],
+                quit_cb=None, quit_screen=None, exc_handler=True, run_empty=False, deliver_at=sorted(rnd.sample(range(1, 30), rnd.choice([0, 0, 2, 5]))))
+
+
 def generate(rnd, tier):
     n = 700 if tier == "quick" else 8000
     sid = SidCounter()
@@ -22,7 +36,7 @@ def generate(rnd, tier):
         c = gen_case(rnd, "tame", sid)
         c["stdin"] = [rnd.choice(LINES) for _ in range(rnd.randint(3, 30))]
         cases.append(c)
-    cases += [gen_case(rnd, "app", sid) for _ in range(n // 3)]
+    cases += [gen_case(rnd, "app", sid) for _ in range(n // 3)] + [gen_c06_dialog(rnd, sid) for _ in range(n // 3)]
     return [with_cc(c) for c in cases]
 
 
@@ -60,7 +74,11 @@ def monitor(case, obs):
     counts = {}
     stack = []            # outstanding accepted requests: ("scr", screen) | ("blocking", screen)
     pending_read = None   # (receiver, line) of the last read, until delivered
+    alt = []              # bypassing requesters that asked between the read and its delivery
+    ambiguous = False
+    last_depth = None
     for i, ev, ctx in x.events():
+        if "depth" in ctx: last_depth = ctx["depth"]
         if ev[0] == "cb" and ev[2] == "prompt":
             last_prompt.setdefault(ev[1], []).append(ev[3])
             k = counts.get(ev[1], 0); counts[ev[1]] = k + 1
@@ -70,24 +88,33 @@ def monitor(case, obs):
             # activated at the next observation that is not part of this callback; scripts of prompt() are rare, so only script-free prompts are tracked exactly
             if ent.get("acts"): plain = False
             if ent.get("ret") != "none":
-                if not stack or x.specs[ev[1]].get("skip_check"): stack.append(("scr", ev[1]))
+                if pending_read is not None:
+                    # a bypassing request issued after the line was read but before it is handled becomes the most recent requester: it receives the line (C18)
+                    # - if the line has not been handled yet; whether it has is not observable, so either receiver is accepted
+                    alt.append(ev[1]); ambiguous = True
+                elif not stack or x.specs[ev[1]].get("skip_check"): stack.append(("scr", ev[1], ctx.get("depth")))
         if ev[0] == "api" and ev[1] == "get_user_input":
-            if not stack or x.specs[ev[2]].get("skip_check"): stack.append(("blocking", ev[2]))
+            if pending_read is not None: plain = False        # a request between a read and its delivery: whether the line was handled already is not observable
+            if not stack or x.specs[ev[2]].get("skip_check"): stack.append(("blocking", ev[2], ctx.get("depth")))
         if ev[0] == "read":
-            if plain and pending_read is not None and pending_read[0][0] == "scr":
+            if plain and pending_read is not None and pending_read[0][0] == "scr" and pending_read[0][2] == last_depth:
                 return "the line %r was read for the prompt of screen %d and never delivered before the next read" % (pending_read[1], pending_read[0][1])
-            pending_read = ((stack[-1] if stack else ("?", None)), ev[1]); stack = []
+            pending_read = ((stack[-1] if stack else ("?", None, None)), ev[1]); stack = []; alt = []
         if ev[0] == "cb" and ev[2] == "input":
             scr, args, key = ev[1], ev[3], ev[4]
             if args not in last_prompt.get(scr, []): return "input() of screen %d got args %r, its outstanding prompts were asked with %r" % (scr, args, last_prompt.get(scr))
             last_prompt[scr].remove(args)
+            if plain and ambiguous and pending_read is not None and scr in alt + [pending_read[0][1]]:
+                plain = False       # from here on the oracle cannot tell which requests are still outstanding
             if plain:
                 if pending_read is None: return "input() of screen %d received %r without a preceding read" % (scr, key)
                 if pending_read[1] != key: return "input() received %r, the line read was %r" % (key, pending_read[1])
-                if pending_read[0][0] == "scr" and pending_read[0][1] != scr: return "the line %r typed at the prompt of screen %r was handed to screen %d" % (key, pending_read[0][1], scr)
+                if pending_read[0][0] == "scr" and pending_read[0][1] != scr and scr not in alt: return "the line %r typed at the prompt of screen %r was handed to screen %d" % (key, pending_read[0][1], scr)
                 if pending_read[0][0] == "blocking": return "the line %r answered a blocking request but was handed to input() of screen %d" % (key, scr)
                 pending_read = None
-    if plain and pending_read is not None and pending_read[0][0] == "scr" and obs["outcome"][0] == "blocked":
+    # a line held for a screen beneath an open modal loop is held, not lost (C03/C05): the hang is reported only when the loop that blocks is the one the
+    # asking screen was shown in
+    if plain and pending_read is not None and pending_read[0][0] == "scr" and obs["outcome"][0] == "blocked" and pending_read[0][2] == last_depth:
         return "the line %r typed at the prompt of screen %r was read and never delivered: the application hangs" % (pending_read[1], pending_read[0][1])
     return None
 
